@@ -629,6 +629,17 @@ def c07(ctx: Ctx) -> None:
     ctx.rule('C07-W8', 'hand-off and join both travel the owning loop\'s ready queue', 2)
     ctx.rule('C07-W9', 'the daemon is cancellation-transparent: a handler that may catch CancelledError at a suspension point re-raises', 3)
     ctx.rule('C07-W10', 'DaemonTask subclasses asyncio.Task and overrides nothing that handles cancellation', 1)
+    ctx.rule('C07-W11', 'the completion flag starts out set: wait() on an idle buffer returns', 1)
+    gi_ = r.ginit
+    sets_i = [n for n in gi_.nodes if is_meth(gi_, n, r.FLAG, 'set')]
+    clears_i = [n for n in gi_.nodes if is_meth(gi_, n, r.FLAG, 'clear')]
+    w11 = must_pass(gi_, [gi_.entry], [gi_.exit], sets_i, edge_ok=_nonexc)
+    w11b = find_path(gi_, sets_i, clears_i) if sets_i and clears_i else None
+    ctx.check('C07-W11', f'__init__: {[norm(n.ast) for n in sets_i]}', gi_.loc(sets_i[0]) if sets_i else f'{FILE}:{r.init.lineno}',
+              bool(sets_i) and w11 is None and w11b is None and not (clears_i and not sets_i),
+              'nothing submitted means nothing to wait for', 'a wait() before the first submission (or with only empty producers so far) waits for a flag '
+              'that only a completed call would set: it never returns', witness=render(gi_, w11 or w11b),
+              construct=construct_key('BUFFER.__init__', 'flag not initially set'))
     if r.wait is None:
         raise AnalysisError('wait() vanished')
     gw = build(r.wait, p, inline_methods=True)
